@@ -10,7 +10,7 @@ VERIF=$(pwd)
 SCRATCH=${SCRATCH:-/tmp/msql-sens}
 RUNS=${SENS_RUNS:-}
 rm -rf "$SCRATCH"; mkdir -p "$SCRATCH"
-trap 'rm -rf "$SCRATCH"' EXIT
+[ -n "${KEEP:-}" ] || trap 'rm -rf "$SCRATCH"' EXIT
 patches=("$@")
 [ ${#patches[@]} -eq 0 ] && patches=(mutants/*.patch seeded/*/patch.diff)
 # scratch copies
